@@ -370,7 +370,20 @@ def gen_world(rng, ntorrents=None, allow_shared=True, empties=False, export_heav
     w.threads = rng.choice([0, 1, 1, 2, 3, 8])
     if rng2.random() < 0.12:
         w.notes["spell"] = rng2.choice(["slash", "dot", "dslash"])      # how runlib spells the directory arguments
+    if w.torrents and rng2.random() < 0.08:
+        upper_case_namesake(w, rng2.choice(w.torrents), rng2)
     return w
+
+
+def upper_case_namesake(w, t, rng):
+    """The export directory already holds a directory named by the torrent's 40 hexadecimal digits in UPPER case (left by
+    another tool): it is not the torrent's export directory and must stay as it is."""
+    up = tuple(w.export) + (t.hex.upper().encode(),)
+    w.put_dir(up)
+    if rng.random() < 0.6:
+        w.put_dir(up + (b"Data",))
+        w.put_file(up + (b"Data", b"left-over.bin"), b"not ours")
+    w.notes["upper_case_namesake"] = True
 
 
 def parents_of(rel):
